@@ -657,6 +657,199 @@ theorem json_wire_variant (j : JSONReq) (id : Nat) (o : Outcome) :
     refine ⟨rfl, rfl, ?_⟩
     exact deliver_length_nonwriter .dohJSON m _ true rfl
 
+/-! ## Round 3: the HTTP request around a DoH query, the client's address, DNSCrypt end to end -/
+
+def sampleDohGet : DohReq :=
+  { parts := ["", "dns-query", "dev1"], meth := .get, dns := [some sampleWire], body := [],
+    raddr := { v6 := true, zone := some "eth0" } }
+
+/-- **doh_front_table.** Which HTTP requests reach the DNS path, from the request alone:
+404 exactly for a path that is not a DNS path; 400 exactly for a wire-format path with
+a method other than GET/POST or a GET whose `dns` parameter is missing, repeated or not
+base64url; everything else hands exactly the decoded parameter (GET) or the body (POST)
+to the decoder — nothing else of the request matters (repaired code). -/
+theorem doh_front_table (r : DohReq) (unpack : List Nat → Option Msg) (o : Outcome)
+    (hk : pathKind r.parts ≠ .json) :
+    ((serveDoHReq true r unpack o).status = stHTTP404 ↔ pathKind r.parts = .other) ∧
+    ((serveDoHReq true r unpack o).status = stHTTP400 ↔
+      pathKind r.parts = .doh ∧ (r.meth = .other ∨ (r.meth = .get ∧ ∀ b, r.dns ≠ [some b]))) ∧
+    (∀ b, (pathKind r.parts = .doh ∧ ((r.meth = .get ∧ r.dns = [some b]) ∨ (r.meth = .post ∧ r.body = b))) →
+      serveDoHReq true r unpack o = serveWire (if r.meth = .get then .dohGet else .dohPost) (unpack b) o true) := by
+  have hst : ∀ t um, (serveWire t um o true).status ≠ stHTTP404 ∧
+      (t.isHTTP = true → (serveWire t um o true).status ≠ stHTTP400) := by
+    intro t um
+    cases um with
+    | none => cases t <;> simp [serveWire, dropped, stHTTP404, stHTTP400, stNone, stClosed, stHTTP500, stProtoErr, Transport.isHTTP]
+    | some m =>
+      simp only [serveWire, serveMsg]
+      split
+      · simp [stProtoErr, stHTTP404, stHTTP400]
+      · cases t <;> simp [deliver, Transport.isHTTP] <;>
+          (try split) <;> simp [stHTTP404, stHTTP400, stNone, stClosed, stOpen, stHTTP500, stHTTP200]
+  unfold serveDoHReq dohFront
+  cases hpk : pathKind r.parts with
+  | json => exact absurd hpk hk
+  | other => simp [stHTTP404, stHTTP400]
+  | doh =>
+    cases hm : r.meth with
+    | other => simp [stHTTP404, stHTTP400]
+    | post =>
+      have h := hst .dohPost (unpack r.body)
+      simp [remoteParses, h.1, h.2 rfl]
+    | get =>
+      match hd : r.dns with
+      | [] => simp [stHTTP404, stHTTP400]
+      | [none] => simp [stHTTP404, stHTTP400]
+      | [some b] =>
+        have h := hst .dohGet (unpack b)
+        simp [remoteParses, h.1, h.2 rfl]
+      | _ :: _ :: _ => simp [stHTTP404, stHTTP400]
+
+example : pathKind sampleDohGet.parts = .doh ∧ pathKind ["", "x", "..", "", ".", "query"] = .doh ∧
+    pathKind ["", "foo", "dns-query"] = .other ∧ pathKind ["", "dns-query", ".."] = .other ∧
+    pathKind ["", "solve"] = .json := by decide
+
+/-- **doh_exactly_one.** DoH from the HTTP request (repaired code): a GET with exactly one
+base64url `dns` value, or a POST, on a DoH path whose octets decode to an accepted query
+for which the pipeline produced something is answered with HTTP 200 and exactly one DNS
+message, the pipeline's — whatever the client's address is (IPv4, IPv6, zoned). -/
+theorem doh_exactly_one (r : DohReq) (unpack : List Nat → Option Msg) (o : Outcome) (b : List Nat) (m : Msg)
+    (hp : pathKind r.parts = .doh)
+    (hb : (r.meth = .get ∧ r.dns = [some b]) ∨ (r.meth = .post ∧ r.body = b))
+    (hu : unpack b = some m) (hacc : acceptMsg m = .accept) (ho : o ≠ .silent) (hc : Contract o true) :
+    (serveDoHReq true r unpack o).status = stHTTP200 ∧ (serveDoHReq true r unpack o).msgs.length = 1 ∧
+    (∀ x, o = .wrote x → (serveDoHReq true r unpack o).msgs = [x]) := by
+  have hk : pathKind r.parts ≠ .json := by rw [hp]; decide
+  rw [(doh_front_table r unpack o hk).2.2 b ⟨hp, hb⟩, hu]
+  have hq : ∀ t : Transport, t.isHTTP = true → ¬ (t = .doq ∧ validQUICMsg m = false) := by
+    intro t ht h; rw [h.1] at ht; simp [Transport.isHTTP] at ht
+  have key : ∀ t : Transport, t.isHTTP = true →
+      (serveWire t (some m) o true).status = stHTTP200 ∧ (serveWire t (some m) o true).msgs.length = 1 ∧
+      (∀ x, o = .wrote x → (serveWire t (some m) o true).msgs = [x]) := by
+    intro t ht
+    refine ⟨?_, exactly_one t m o hacc ho hc (hq t ht), ?_⟩
+    · have hne : serveCore m o ≠ [] := by
+        unfold serveCore; rw [hacc]
+        cases o with
+        | silent => exact absurd rfl ho
+        | wrote x => simp
+        | failed ne => simp
+        | wroteFailed x ne => simp
+      simp only [serveWire, serveMsg]; rw [if_neg (hq t ht)]
+      cases t <;> simp [Transport.isHTTP] at ht <;> simp [deliver, hne]
+    · intro x hx; subst hx
+      exact (answer_is_pipelines t m hacc (hq t ht)).1 x
+  split
+  · exact key .dohGet rfl
+  · exact key .dohPost rfl
+
+example : (serveDoHReq true sampleDohGet sampleUnpack (.wrote (handlerResp sampleWireMsg 0 2))).msgs =
+    [handlerResp sampleWireMsg 0 2] := by decide
+
+/-- **doh_client_address_irrelevant.** With the repaired `remoteAddr` the answer to an HTTP
+request does not depend on the form of the client's address — wire format and JSON API. -/
+theorem doh_client_address_irrelevant (r : DohReq) (a : RAddr) (unpack : List Nat → Option Msg) (o : Outcome)
+    (parts : List String) (a' : RAddr) (j : JSONReq) (id : Nat) :
+    serveDoHReq true { r with raddr := a } unpack o = serveDoHReq true r unpack o ∧
+    serveJSONReq true parts a j id o = serveJSONReq true parts a' j id o := by
+  constructor
+  · unfold serveDoHReq; simp [remoteParses]
+  · unfold serveJSONReq; simp [remoteParses]
+
+/-- **doh_zoned_client_counterexample.** (Finding `doh-zoned-client-unanswered`, repaired by
+`fix: dnsserver: answer DoH requests of clients whose address carries an IPv6 zone`.)  The
+original `remoteAddr` handed `fe80::1%eth0` to `netutil.ParseIP` and panicked: for a client
+with a zoned address every well-formed query ended in an empty HTTP 200 — `doh_exactly_one`
+fails for it, while the same request from any other address is answered. -/
+theorem doh_zoned_client_counterexample :
+    ¬ (∀ (r : DohReq) (unpack : List Nat → Option Msg) (o : Outcome) (b : List Nat) (m : Msg),
+        pathKind r.parts = .doh → r.meth = .get ∧ r.dns = [some b] → unpack b = some m →
+        acceptMsg m = .accept → o ≠ .silent → Contract o true →
+        (serveDoHReq false r unpack o).msgs.length = 1) := by
+  intro h
+  have := h sampleDohGet sampleUnpack (.wrote (handlerResp sampleWireMsg 0 2)) sampleWire sampleWireMsg
+    (by decide) ⟨rfl, rfl⟩ (by decide) (by decide) (by simp) (by intro r ne hh; cases hh)
+  revert this
+  decide
+
+example : (serveDoHReq false { sampleDohGet with raddr := ⟨true, none⟩ } sampleUnpack
+    (.wrote (handlerResp sampleWireMsg 0 2))).msgs.length = 1 := by decide
+
+/-- **doh_get_post_equiv.** The two wire-format encodings of DoH deliver the same messages. -/
+theorem doh_get_post_equiv (parts : List String) (b : List Nat) (a a' : RAddr) (x : List Nat)
+    (unpack : List Nat → Option Msg) (o : Outcome) (hp : pathKind parts = .doh) :
+    (serveDoHReq true ⟨parts, .get, [some b], x, a⟩ unpack o).msgs =
+    (serveDoHReq true ⟨parts, .post, [], b, a'⟩ unpack o).msgs ∧
+    (serveDoHReq true ⟨parts, .get, [some b], x, a⟩ unpack o).status =
+    (serveDoHReq true ⟨parts, .post, [], b, a'⟩ unpack o).status := by
+  unfold serveDoHReq dohFront
+  simp only [hp, remoteParses, Bool.true_or, if_true]
+  cases hu : unpack b with
+  | none => simp [serveWire, dropped]
+  | some m =>
+    simp only [serveWire, serveMsg]
+    simp [deliver]
+
+/-- **dnscrypt_e2e_table.** DNSCrypt as a client sees it, the library's own filter included:
+a decrypted message that does not decode, is a response, or does not carry exactly one
+question is dropped (nothing on UDP, connection closed on TCP) and never reaches the
+handler; every other message is answered exactly once — NOTIMP for the opcode, FORMERR
+for more than one answer/authority record, the pipeline's answer, or SERVFAIL when the
+pipeline produced nothing or failed. -/
+theorem dnscrypt_e2e_table (t : Transport) (ht : t.isDNSCrypt = true) (um : Option Msg) (o : Outcome) :
+    ((um = none ∨ ∃ m, um = some m ∧ (m.qr = true ∨ m.questions.length ≠ 1)) →
+      (serveDNSCryptE2E t um o).msgs = [] ∧ ∀ o', serveDNSCryptE2E t um o' = serveDNSCryptE2E t um o) ∧
+    (∀ m, um = some m → m.qr = false → m.questions.length = 1 →
+      (serveDNSCryptE2E t um o).msgs.length = 1 ∧
+      (serveDNSCryptE2E t um o).msgs = specMsgs t m o true ∧
+      ∀ r ∈ (serveDNSCryptE2E t um o).msgs, HandlerMatches m o → Matches m r) := by
+  constructor
+  · intro h
+    rcases h with h | ⟨m, hm, hbad⟩
+    · subst h; simp [serveDNSCryptE2E, droppedDC]
+    · subst hm
+      have : dnscryptLibPasses m = false := by
+        unfold dnscryptLibPasses
+        rcases hbad with h | h
+        · simp [h]
+        · simp [h]
+      simp [serveDNSCryptE2E, this, droppedDC]
+  · intro m hm hqr hq1
+    subst hm
+    have hp : dnscryptLibPasses m = true := by simp [dnscryptLibPasses, hqr, hq1]
+    have hnq : ¬ (t = .doq ∧ validQUICMsg m = false) := by
+      intro h; rw [h.1] at ht; simp [Transport.isDNSCrypt] at ht
+    have hmsgs : (serveDNSCryptE2E t (some m) o).msgs = (serveMsg t m o true).msgs := by
+      simp [serveDNSCryptE2E, hp]
+    rw [hmsgs]
+    refine ⟨?_, ?_, ?_⟩
+    · unfold serveMsg; rw [if_neg hnq]
+      cases t <;> simp [Transport.isDNSCrypt] at ht <;> simp [deliver]
+    · unfold serveMsg specMsgs
+      have hq' : ¬ (t = .doq ∧ m.edns = true ∧ m.keepalive = true) := fun h => hnq ⟨h.1, (validQUIC_false_iff m).mpr h.2⟩
+      rw [if_neg hnq, if_neg hq']
+      have hcl := classify_accept m
+      cases hact : acceptMsg m with
+      | ignore => exact absurd ((accept_table m).1.mp hact) (by simp [hqr])
+      | notimp =>
+        rw [hcl.2.1.mpr hact]; simp only [serveCore, hact]
+        cases t <;> simp [Transport.isDNSCrypt] at ht <;> simp [deliver, lastOr, Transport.nonWriter, rcNotImp, errResp_eq_setRcode]
+      | formerr =>
+        rw [hcl.2.2.1.mpr hact]; simp only [serveCore, hact]
+        cases t <;> simp [Transport.isDNSCrypt] at ht <;> simp [deliver, lastOr, Transport.nonWriter, rcFormErr, errResp_eq_setRcode]
+      | accept =>
+        rw [hcl.2.2.2.mpr hact]; simp only [serveCore, hact]
+        cases o with
+        | silent => cases t <;> simp [Transport.isDNSCrypt] at ht <;> simp [deliver, lastOr, Transport.synthesises, rcServFail, errResp_eq_setRcode]
+        | wrote r => cases t <;> simp [Transport.isDNSCrypt] at ht <;> simp [deliver, lastOr, Transport.nonWriter]
+        | failed ne => cases t <;> simp [Transport.isDNSCrypt] at ht <;> simp [deliver, lastOr, Transport.nonWriter, ← servFail_eq_errResp']
+        | wroteFailed r ne => cases t <;> simp [Transport.isDNSCrypt] at ht <;> simp [deliver, lastOr, Transport.nonWriter, ← servFail_eq_errResp']
+    · intro r hr hh
+      exact response_matches t m o true hh r hr
+
+example : (serveDNSCryptE2E .dnscryptTCP (some sampleResponse) .silent).status = stClosed ∧
+    (serveDNSCryptE2E .dnscryptUDP (some sampleQuery) .silent).msgs = [setRcode sampleQuery rcServFail] := by decide
+
 #print axioms accept_table
 #print axioms one_response
 #print axioms exactly_one
@@ -693,6 +886,12 @@ theorem json_wire_variant (j : JSONReq) (id : Nat) (o : Outcome) :
 #print axioms byte_buffers_released_after_last_use
 #print axioms early_put_counterexample
 #print axioms json_wire_variant
+#print axioms doh_front_table
+#print axioms doh_exactly_one
+#print axioms doh_client_address_irrelevant
+#print axioms doh_zoned_client_counterexample
+#print axioms doh_get_post_equiv
+#print axioms dnscrypt_e2e_table
 
 end Agd.Serve
 #print axioms Agd.Tie.TrC01.translation_complete
@@ -703,3 +902,8 @@ end Agd.Serve
 #print axioms Agd.Tie.TrC01.accepted_served_by_handler
 #print axioms Agd.Tie.TrC01.dispose_is_last
 #print axioms Agd.Tie.TrC01.undecodable_dropped
+#print axioms Agd.Tie.TrC01.isDoH_tr
+#print axioms Agd.Tie.TrC01.httpRequestToMsg_tr
+#print axioms Agd.Tie.TrC01.httpRequestToMsgGet_tr
+#print axioms Agd.Tie.TrC01.urlQueryParameterToBoolean_tr
+#print axioms Agd.Tie.TrC01.serveDoH_tr
